@@ -4,14 +4,14 @@ import os
 import sys
 import time
 
-from common import (scratch, run_tlc, run_parallel, tla_set, tla_seq, tla_table, tla_str,
+from common import (log, scratch, run_tlc, run_parallel, tla_set, tla_seq, tla_table, tla_str,
                     MachineryError, NCPU, REPO, tlc_ok)
 
 PRESETS = {"default": "DefaultTable", "octet_rule": "OctetTable", "hypervalent": "HypervalentTable"}
 
 C01_INVARIANTS = ["InvValence", "InvCapIsTable", "InvStateBound", "InvNoSelfBond", "InvNoDoubleEdge",
                   "InvOrdersLegal", "InvChainForward", "InvLabelsLegal", "InvLabelsPaired",
-                  "InvRingsClosed", "InvBalanced", "InvNoEmptyBranch", "InvAllWritten"]
+                  "InvRingsClosed", "InvBalanced", "InvNoEmptyBranch", "InvAllWritten", "InvAdjMeaning"]
 
 
 def table_expr(table):
@@ -20,22 +20,42 @@ def table_expr(table):
     return tla_table(table)
 
 
-def mc_module(name, alphabet, table, first, extends="DecodeCall", extra_defs=""):
-    return ("---- MODULE %s ----\nEXTENDS %s\n"
-            "Alpha == %s\nFirst == %s\nTab == %s\n%s\n====\n") % (
-        name, extends, tla_set(alphabet), tla_set(first), table_expr(table), extra_defs)
+def dec_params(table, compat=False, maxlabel=99, known=None, gen=True, alphabet=(), maxlen=0, first=None,
+               allow_empty=True, trace=False, extra=""):
+    """Text of a generated DecParams.tla (plain definitions: evaluated once by TLC)."""
+    alphabet = list(alphabet)
+    first = list(first) if first is not None else alphabet
+    lines = ["---- MODULE DecParams ----", "EXTENDS Tables, Naturals, Sequences, Json, IOUtils",
+             "Table == %s" % table_expr(table),
+             "Compat == %s" % ("TRUE" if compat else "FALSE"),
+             "MaxLabel == %d" % maxlabel,
+             "Gen == %s" % ("TRUE" if gen else "FALSE"),
+             "Alphabet == %s" % tla_set(alphabet),
+             "MaxLen == %d" % maxlen,
+             "Input == <<>>",
+             "FirstSyms == %s" % tla_set(first),
+             "AllowEmpty == %s" % ("TRUE" if allow_empty else "FALSE")]
+    if trace:
+        lines.append("Tr == JsonDeserialize(IOEnv.TRACE_FILE)")
+        lines.append("KnownSyms == UNION {{Tr[i].inp[j] : j \\in 1..Len(Tr[i].inp)} : i \\in 1..Len(Tr)}")
+    else:
+        lines.append("Tr == <<>>")
+        lines.append("KnownSyms == %s" % tla_set(known if known is not None else alphabet))
+    if extra:
+        lines.append(extra)
+    lines.append("====")
+    return "\n".join(lines) + "\n"
 
 
-def mc_cfg(maxlen, compat=False, maxlabel=99, spec="FastSpec", invariants=(), view=False,
-           emit=None, allow_empty=True, gen=True, properties=(), constraint=None, extra_consts=""):
-    lines = ["SPECIFICATION " + spec, "CONSTANTS",
-             "  Table <- Tab", "  Compat = %s" % ("TRUE" if compat else "FALSE"),
-             "  MaxLabel = %d" % maxlabel, "  KnownSyms <- Alpha",
-             "  Gen = %s" % ("TRUE" if gen else "FALSE"), "  Alphabet <- Alpha", "  MaxLen = %d" % maxlen,
-             "  Input <- Alpha", "  FirstSyms <- First",
-             "  AllowEmpty = %s" % ("TRUE" if allow_empty else "FALSE")]
-    if extra_consts:
-        lines.append(extra_consts)
+def mc_module(name, extends="DecodeCall", extra_defs=""):
+    return "---- MODULE %s ----\nEXTENDS %s\n%s\n====\n" % (name, extends, extra_defs)
+
+
+def mc_cfg(spec="FastSpec", invariants=(), view=False, emit=None, properties=(), constraint=None,
+           postcondition=None):
+    lines = ["SPECIFICATION " + spec]
+    if postcondition:
+        lines.append("POSTCONDITION " + postcondition)
     for inv in invariants:
         lines.append("INVARIANT " + inv)
     if emit:
@@ -62,7 +82,7 @@ def partitions(alphabet, nparts):
 def run_decoder_tlc(name, alphabet, table, maxlen, compat=False, maxlabel=99, emit=False,
                     invariants=(), view=False, spec="FastSpec", coverage=False, nparts=None,
                     timeout=3000, properties=(), extends="DecodeCall", emit_name="Emit",
-                    extra_defs="", heap="3g"):
+                    extra_defs="", heap="2g", fastjit=False):
     """Run one configuration, partitioned over parallel single-worker TLC processes.
     Returns (list of TlcResult, vectors)."""
     nparts = nparts or min(NCPU, len(alphabet))
@@ -73,18 +93,34 @@ def run_decoder_tlc(name, alphabet, table, maxlen, compat=False, maxlabel=99, em
     jobs = []
     for pi, first in enumerate(parts):
         mod = "MC_%s_%d" % (name, pi)
-        with open(os.path.join(work, mod + ".tla"), "w") as f:
-            f.write(mc_module(mod, alphabet, table, first, extends=extends, extra_defs=extra_defs))
-        cfg = mc_cfg(maxlen, compat=compat, maxlabel=maxlabel, spec=spec, invariants=invariants, view=view,
-                     emit=(emit_name if emit else None), allow_empty=(pi == 0), properties=properties)
-        extra = ["-coverage", "1"] if coverage else []
-        out_path = os.path.join(work, mod + ".out")
+        sub = os.path.join(work, "p%d" % pi)
+        os.makedirs(sub)
+        with open(os.path.join(sub, "DecParams.tla"), "w") as f:
+            f.write(dec_params(table, compat=compat, maxlabel=maxlabel, alphabet=alphabet, maxlen=maxlen,
+                               first=first, allow_empty=(pi == 0)))
+        with open(os.path.join(sub, mod + ".tla"), "w") as f:
+            f.write(mc_module(mod, extends=extends, extra_defs=extra_defs))
+        cfg = mc_cfg(spec=("CovSpec" if coverage else spec),
+                     invariants=list(invariants) + (["CovCount"] if coverage else []), view=view,
+                     emit=(emit_name if emit else None), properties=properties,
+                     postcondition=("CovReport" if coverage else None))
+        extra = []
+        out_path = os.path.join(sub, mod + ".out")
 
-        def job(mod=mod, cfg=cfg, extra=extra, out_path=out_path):
-            return run_tlc(work, mod, cfg, workers=(NCPU if coverage else 1), extra=extra, timeout=timeout,
-                           stdout_path=out_path, keep_json=emit, heap=heap)
+        def job(mod=mod, cfg=cfg, extra=extra, out_path=out_path, sub=sub):
+            r = run_tlc(sub, mod, cfg, workers=1, extra=extra, timeout=timeout,
+                        stdout_path=out_path, keep_json=(emit or coverage), heap=heap, fastjit=fastjit)
+            if coverage:
+                for e in r.printed:
+                    if isinstance(e, dict) and e.get("ev") == "COVERAGE":
+                        for nm, c in zip(e["names"], e["counts"]):
+                            r.coverage[nm] = (c, c)
+                r.printed = [e for e in r.printed if not (isinstance(e, dict) and e.get("ev") == "COVERAGE")]
+            return r
         jobs.append(job)
+    log("tlc %s: %d processes, <=%d symbols" % (name, len(jobs), maxlen))
     results = run_parallel(jobs, max_procs=NCPU)
+    log("tlc %s done: %d states" % (name, sum(r.distinct for r in results)))
     vectors = []
     for r in results:
         tlc_ok(r, name)
@@ -134,8 +170,8 @@ def call_decoder(s, compat=False, attribute=False):
         return (type(e).__name__, "")
 
 
-def replay_decoder_vectors(vectors, table, compat=False):
-    """Replay spec vectors; returns list of mismatches (vector, impl outcome)."""
+def _replay_chunk(args):
+    vectors, table, compat = args
     set_table(table)
     mism = []
     try:
@@ -151,3 +187,134 @@ def replay_decoder_vectors(vectors, table, compat=False):
     finally:
         set_table("default")
     return mism
+
+
+def pmap(fn, chunks):
+    """Run fn over chunks in forked worker processes (the implementation is imported in each)."""
+    import multiprocessing as mp
+    if len(chunks) <= 1:
+        return [fn(c) for c in chunks]
+    ctx = mp.get_context("fork")
+    with ctx.Pool(min(NCPU, len(chunks))) as pool:
+        return pool.map(fn, chunks)
+
+
+def chunked(seq, n):
+    n = max(1, n)
+    k = (len(seq) + n - 1) // n if seq else 1
+    return [seq[i:i + k] for i in range(0, len(seq), k)] or [[]]
+
+
+def replay_decoder_vectors(vectors, table, compat=False):
+    """Replay spec vectors into the real decoder; returns mismatches [(vector, impl outcome)]."""
+    selfies_mod()
+    nchunks = NCPU if len(vectors) > 20000 else 1
+    out = []
+    for part in pmap(_replay_chunk, [(c, table, compat) for c in chunked(vectors, nchunks)]):
+        out.extend(part)
+    return out
+
+
+# --------------------------------------------------------------------------
+# RECORD -> TRACE : recorded decoder calls validated by TLC (TraceDec.tla)
+# --------------------------------------------------------------------------
+
+def split_tokens(s):
+    """Tokens of a well-formed SELFIES string: bracketed symbols and dots (harness-side, trivial)."""
+    toks, i = [], 0
+    while i < len(s):
+        if s[i] == ".":
+            toks.append(".")
+            i += 1
+        else:
+            j = s.index("]", i)
+            toks.append(s[i:j + 1])
+            i = j + 1
+    return toks
+
+
+def tla_value(v):
+    if isinstance(v, bool):
+        return "TRUE" if v else "FALSE"
+    if isinstance(v, int):
+        return str(v)
+    if isinstance(v, str):
+        return tla_str(v)
+    if isinstance(v, (list, tuple)):
+        return "<<" + ", ".join(tla_value(x) for x in v) + ">>"
+    if isinstance(v, dict):
+        return tla_record(v)
+    raise MachineryError("cannot render %r" % (v,))
+
+
+def tla_record(rec):
+    return "[" + ", ".join("%s |-> %s" % (k, tla_value(v)) for k, v in rec.items()) + "]"
+
+
+def record_decoder(inputs, table, compat=False):
+    """Drive the real decoder; one record per call, logged at the call's return / raise."""
+    set_table(table)
+    recs = []
+    try:
+        for toks in inputs:
+            kind, val = call_decoder("".join(toks), compat)
+            recs.append({"inp": list(toks), "kind": kind, "out": val})
+    finally:
+        set_table("default")
+    return recs
+
+
+def validate_decoder_trace(name, records, table, compat=False, maxlabel=99, nprocs=None, timeout=3000,
+                           module="TraceDec", extra_consts=""):
+    """Returns (tlc results, events) where events are the parsed PrintT records with global tids."""
+    import json as _json
+    if not records:
+        return [], []
+    nprocs = nprocs or NCPU
+    nprocs = max(1, min(nprocs, len(records)))
+    work = scratch("trace_%s_" % name)
+    # balance chunks by total token count
+    order = sorted(range(len(records)), key=lambda i: -len(records[i]["inp"]))
+    chunks = [[] for _ in range(nprocs)]
+    loads = [0] * nprocs
+    for i in order:
+        k = loads.index(min(loads))
+        chunks[k].append(i)
+        loads[k] += len(records[i]["inp"]) + 5
+    jobs = []
+    for ci, idxs in enumerate(chunks):
+        if not idxs:
+            continue
+        idxs.sort()
+        mod = "MC_%s_%d" % (name, ci)
+        sub = os.path.join(work, "p%d" % ci)
+        os.makedirs(sub)
+        tf = os.path.join(sub, "trace.json")
+        with open(tf, "w") as f:
+            _json.dump([records[i] for i in idxs], f, ensure_ascii=True)
+        with open(os.path.join(sub, "DecParams.tla"), "w") as f:
+            f.write(dec_params(table, compat=compat, maxlabel=maxlabel, gen=False, trace=True, extra=extra_consts))
+        with open(os.path.join(sub, mod + ".tla"), "w") as f:
+            f.write(mc_module(mod, extends=module))
+        cfg = "SPECIFICATION Spec\nCHECK_DEADLOCK FALSE\n"
+
+        def job(mod=mod, cfg=cfg, sub=sub, idxs=idxs, tf=tf):
+            r = run_tlc(sub, mod, cfg, workers=1, timeout=timeout, heap="3g", env_extra={"TRACE_FILE": tf})
+            r.idxs = idxs
+            return r
+        jobs.append(job)
+    log("trace %s: %d records in %d processes" % (name, len(records), len(jobs)))
+    results = run_parallel(jobs, max_procs=NCPU)
+    log("trace %s done: %d steps, slowest %.1fs" % (name, sum(r.generated for r in results), max(r.wall for r in results)))
+    events = []
+    for r in results:
+        tlc_ok(r, name)
+        done = [e for e in r.printed if e.get("ev") == "DONE"]
+        if not done or done[0]["n"] != len(r.idxs):
+            raise MachineryError("trace validation did not consume the whole trace (%s)\n%s" % (name, r.log[-2000:]))
+        for e in r.printed:
+            if "tid" in e:
+                e = dict(e)
+                e["tid"] = r.idxs[e["tid"] - 1]
+            events.append(e)
+    return results, events
